@@ -463,7 +463,10 @@ class Connection(object):
 
             if not immediate and self.socket is not None:
                 # Flush any packets remaining in the queue.
-                while self._pop_packet():
+                try:
+                    while self._pop_packet():
+                        pass
+                except socket.error:
                     pass
 
             if self.new_networking_thread is not None:
